@@ -247,6 +247,11 @@ pub fn program_body_probed(prog: Program, input: Vec<i64>, src: SrcKind, cfg: Jo
 
 /// The grammar of C05 at every probe, for every replica.
 pub fn probe_grammar(logv: &[Ev]) -> Result<(), Fail> {
+    probe_grammar_n(logv, None)
+}
+
+/// `fars`: the number of ends of iteration every probe must see (1 for a job without loops).
+pub fn probe_grammar_n(logv: &[Ev], fars: Option<usize>) -> Result<(), Fail> {
     use std::collections::BTreeMap;
     let mut seqs: BTreeMap<(u32, (u64, u64, u64)), Vec<(u8, Option<i64>)>> = BTreeMap::new();
     for e in logv {
@@ -262,6 +267,15 @@ pub fn probe_grammar(logv: &[Ev]) -> Result<(), Fail> {
                 format!("c05-job-grammar-{sig}"),
                 format!("probe {id} on replica {:?}: {msg}; sequence of kinds {:?}", coord, sh.iter().map(|x| x.0).collect::<Vec<_>>()),
             ));
+        }
+        if let Some(n) = fars {
+            let got = sh.iter().filter(|x| x.0 == crate::kit::K_FAR).count();
+            if got != n {
+                return Err(Fail::new(
+                    "c05-job-grammar-ends-of-iteration",
+                    format!("probe {id} on replica {:?} saw {got} ends of iteration, the job has {n}; sequence of kinds {:?}", coord, sh.iter().map(|x| x.0).collect::<Vec<_>>()),
+                ));
+            }
         }
     }
     Ok(())
